@@ -59,6 +59,14 @@ void vk_trace(const char *fmt, ...)
 {
 	va_list ap;
 
+	static int nseg;
+
+	if (++nseg > 4000) {
+		/* a run-away loop in the library: cut the trace */
+		fputs(" | OVERFLOW", stdout);
+		fflush(stdout);
+		_exit(3);
+	}
 	if (!first_seg)
 		fputs(" | ", stdout);
 	first_seg = 0;
@@ -778,6 +786,7 @@ int main(void)
 		if (pid == 0) {
 			if (errf != NULL)
 				dup2(fileno(errf), 2);
+			alarm(20);		/* watchdog: a scenario takes milliseconds */
 			run_case(line);
 			fflush(stdout);
 			/* normal exit so that LeakSanitizer runs */
